@@ -304,6 +304,7 @@ class Populations:
             Forwarding to `Population`.
         """
 
+        roots = list(roots)
         fs = [Population.find_swcs(d, ext=ext, relpath=True) for d in roots]
         if intersect:
             inter = list(reduce(lambda a, b: set(a).intersection(set(b)), fs))
